@@ -18,6 +18,7 @@ func init() { register("C06", checkC06) }
 func checkC06(c *chk.Ctx) {
 	h := newH(c)
 	c.Decided = []string{
+		"R06j no zero-copy decoded request reaches DB.ProcessWrite (pooled storage entries would overwrite the operations still to be applied)",
 		"R06i every DB a controller opens (constructor, re-open in NewTerm, snapshot installation) is given the notification setting of the term before the function succeeds: whether batches are recorded is part of the replicated state",
 		"R06h once an entry is committed the leader applies it on every path of the commit continuation, as every follower does",
 		"R06a nothing reachable from applying a logged request reads the clock, random sources, the environment or generates ids",
@@ -41,6 +42,7 @@ func checkC06(c *chk.Ctx) {
 	ruleCommittedContinuationsSucceed(h, "R06g")
 	ruleCommittedEntryAlwaysApplied(h, "R06h")
 	ruleR06i(h)
+	ruleNoZeroCopyDecodeApplied(h, "R06j")
 	ruleReusedDecodeTargetReset(h, "R06f")
 }
 
